@@ -255,7 +255,7 @@ pub fn digest(files: &std::collections::HashMap<&'static str, String>) -> Value 
           }
           let fields = vec![json!({"name": "", "refs": refs, "nested": false, "sep": false, "sepStr": false})];
           items.push(json!({"file": fname, "kind": "enum", "name": name, "vis": it["vis"], "ser": has("Serialize"), "de": has("Deserialize"),
-            "val": false, "bare": derives.iter().filter(|d| !d.contains("::")).collect::<Vec<_>>(), "fields": fields, "variants": vnames, "evstream": evstream}));
+            "val": false, "bare": derives.iter().filter(|d| !d.contains("::")).collect::<Vec<_>>(), "fields": fields, "variants": vnames, "evstream": evstream, "respEnum": !has("PartialEq") && !has("Serialize") && !has("Deserialize")}));
         }
         "type" => {
           let (refs, _) = refs_of(it["ty"].as_str().unwrap_or(""));
